@@ -158,6 +158,10 @@ type vStateC19 struct {
 	Kind     string `json:"kind"` // missing, reg, dir-empty, dir-nonempty, symlink, symlink-dangling
 	Rel      string `json:"rel,omitempty"`
 	MtimeRel int    `json:"mtime_rel"` // -1 older, 0 equal, 1 newer than the snapshot's
+	// SubSecNs > 0 (only with MtimeRel == 1): the item is newer by that many nanoseconds only, i.e. its
+	// mtime lies in the SAME second as the snapshot's (added after an independent seeded change that
+	// compared mtimes at one-second resolution in the if-changed shortcut was missed)
+	SubSecNs int64 `json:"subsec_ns,omitempty"`
 	Mode     uint32 `json:"mode,omitempty"`
 	Hardlink bool   `json:"hardlink,omitempty"`
 	Cut      int    `json:"cut,omitempty"`
@@ -171,6 +175,9 @@ var vRelsC19 = []string{"partial", "diff", "longer-tail", "shorter", "identical"
 
 func vGenStateC19(t *rapid.T, f *vFileC19) *vStateC19 {
 	s := &vStateC19{MtimeRel: rapid.SampledFrom([]int{0, -1, 1, -1, 1}).Draw(t, "mtimerel"), Seed: rapid.Uint64().Draw(t, "oseed")}
+	if s.MtimeRel == 1 && rapid.IntRange(0, 1).Draw(t, "subsec") == 0 {
+		s.SubSecNs = rapid.SampledFrom([]int64{1, 1000, 150_000_000, 700_000_000, 999_999_999}).Draw(t, "subsecns")
+	}
 	k := rapid.IntRange(0, 19).Draw(t, "skind")
 	switch {
 	case k >= 18:
@@ -424,10 +431,14 @@ func vFirstDiffC19(a, b []byte) int {
 }
 
 func vSetMtimeC19(p string, sec int64, symlink bool) error {
+	return vSetMtimeNsC19(p, sec*1e9, symlink)
+}
+
+func vSetMtimeNsC19(p string, ns int64, symlink bool) error {
 	if symlink {
-		return vLutimes(p, sec*1e9)
+		return vLutimes(p, ns)
 	}
-	ts := []syscall.Timespec{syscall.NsecToTimespec(sec * 1e9), syscall.NsecToTimespec(sec * 1e9)}
+	ts := []syscall.Timespec{syscall.NsecToTimespec(ns), syscall.NsecToTimespec(ns)}
 	return syscall.UtimesNano(p, ts)
 }
 
@@ -525,7 +536,11 @@ func vRoundC19(e *vEnv, snapID, src string, files []*vFileC19, states []*vStateC
 				return "", nil, err
 			}
 		}
-		if err := vSetMtimeC19(p, mt, strings.HasPrefix(s.Kind, "symlink")); err != nil {
+		mtNs := mt * 1e9
+		if s.SubSecNs > 0 {
+			mtNs = f.Mtime*1e9 + s.SubSecNs
+		}
+		if err := vSetMtimeNsC19(p, mtNs, strings.HasPrefix(s.Kind, "symlink")); err != nil {
 			return "", nil, err
 		}
 	}
@@ -612,6 +627,9 @@ func vRoundC19(e *vEnv, snapID, src string, files []*vFileC19, states []*vStateC
 		lbl := []string{"content=" + f.Recipe, "state=" + s.label(), "outcome=" + expect[i]}
 		if s.Kind != "missing" {
 			lbl = append(lbl, fmt.Sprintf("mtime-rel=%d", s.MtimeRel), "outcome="+expect[i]+"/"+o.Overwrite)
+			if s.SubSecNs > 0 {
+				lbl = append(lbl, "mtime-same-second-newer")
+			}
 		}
 		if s.Kind == "reg" {
 			if s.Hardlink {
